@@ -460,10 +460,10 @@ def finish(ctx: Ctx, checker_cmd: str) -> int:
             path = os.path.join(VERIF, 'replays', '%s-bounded-%s.json' % (pid, re.sub(r'[^A-Za-z0-9_.-]+', '_', b['name'])))
             json.dump(b, open(path, 'w'), indent=1, default=str)
             lines.append('VIOLATION property=%s replay=%s' % (pid, path))
-    if checker_bug:
+    if violations:
+        rc = 1  # a failed obligation of the claim outranks a failed vacuity/canary side-check (often its consequence)
+    elif checker_bug:
         rc = 3
-    elif violations:
-        rc = 1
     elif unknown:
         rc = 2
         for o in unknown:
